@@ -9,7 +9,11 @@ HOOKS = ("before_reduce", "before_effect", "before_dispatch")
 GUARDED = {"before_reduce": "REDUCE", "before_effect": None, "before_dispatch": "NOTIFY"}
 
 
-def _flag_writes(body, path, flags):
+def _flag_writes(body, path, flags, tested=None):
+    """constant writes to named flags on the path; a flag no switch ever looks at is ignored
+    (e.g. the unused result of a shared hook helper inlined into the before_effect phase)"""
+    if tested is not None:
+        flags = set(flags) & set(tested)
     out = []
     for bb in path.blocks:
         for st in body.blocks[bb]["stmts"]:
@@ -63,7 +67,7 @@ def mw_table(ctx, rep):
                 verdict = "Err"
             seen.add(verdict)
             cont = (tgt == h)
-            fw = _flag_writes(body, p, flags)
+            fw = _flag_writes(body, p, flags, ctx.lr(body).flags.tested)
             errs = [e for e in p.calls() if e.site is not None and A.event(e.site) == "ON_ERROR"]
             key = "%s:%s" % (hook, verdict)
             where = ctx.where(body, p.blocks[-2] if len(p.blocks) > 1 else s.bb)
